@@ -10,8 +10,9 @@ EXPLANATION = (
     "change a table row). T2: contains_wildcards is glob.has_magic and make_operand builds a Matcher exactly for "
     "wildcard text. T3: Expression.check is patched in as 'return self.evaluate(tags)' and every local Expression "
     "subclass defines evaluate and __str__; the patched Not.__str__ evaluated for every operand kind (Literal, Matcher, "
-    "Not, And, Or, True_, Never) keeps the operand one parenthesised unit directly under 'not', and to_string changes "
-    "only blanks next to parentheses (token sequence equal). T4 also on 13 concrete renderings (constant folding). T4: _parse_tag_expression_v2 evaluated on an abstract text with a "
+    "Not, And, Or, True_, Never) keeps the operand one parenthesised unit directly under 'not', and to_string (pretty and plain) on eight printed "
+    "expressions yields a text with the same truth table over its operands under the grammar's reading (not > and > or), "
+    "computed by a 40-line reference reader. T4 also on 13 concrete renderings (constant folding). T4: _parse_tag_expression_v2 evaluated on an abstract text with a "
     "has-'@' flag: the text reaching TagExpressionParser.parse never has '@'; on a two-term list the text is "
     "'(t1) and (t2)' with the grammar's own AND keyword. T5: setup_tag_expression evaluated with make_tag_expression "
     "returning a token whose str() is a marker: the placeholder {config.tags} is replaced by the PRINTED parsed config "
@@ -29,5 +30,5 @@ def run(chk, ix, tier):
     rules_tags.check_v2_glue(chk, ix)
     rules_tags.check_v2_glue_concrete(chk, ix)
     rules_tags.check_config_tags(chk, ix)
-    for r, n in (("T1", 140), ("T2", 3), ("T3", 11), ("T4", 14), ("T5", 4)):
+    for r, n in (("T1", 140), ("T2", 3), ("T3", 25), ("T4", 14), ("T5", 4)):
         chk.require_instances(r, n)
